@@ -414,6 +414,47 @@ def rmw_through_local(tree):
     return changed
 
 
+# ---------------------------------------------------------------------------------------------- pass: deferred flag tests
+def sink_flag_tests(tree):
+    """`if c: ...; f = A  else: ...; f = B` followed by `if f: X`  ->  the test is duplicated into both branches (tail
+    duplication: `if c: P else: Q; Z` == `if c: P; Z else: Q; Z`), and where the flag has just been assigned a constant the
+    test is folded.  Brings 'compute a ready flag, act on it afterwards' back to 'act where the flag is known'."""
+    changed = 0
+    for _o, _f, lst in list(stmt_lists(tree)):
+        i = 0
+        while i + 1 < len(lst):
+            a, b = lst[i], lst[i + 1]
+            t = b.test if isinstance(b, ast.If) else None
+            if isinstance(t, ast.UnaryOp) and isinstance(t.op, ast.Not):
+                t = t.operand
+            if isinstance(a, ast.If) and a.orelse and isinstance(t, ast.Name) and not b.orelse and \
+                    any(isinstance(n, ast.Name) and n.id == t.id and isinstance(n.ctx, ast.Store) for br in (a.body, a.orelse) for s_ in br for n in ast.walk(s_)) \
+                    and not _contains(b.body, (ast.FunctionDef, ast.Lambda, ast.ClassDef)):
+                a.body.append(copy.deepcopy(b))
+                a.orelse.append(copy.deepcopy(b))
+                del lst[i + 1]
+                changed += 1
+                continue
+            i += 1
+    # fold `f = <True/False>` immediately followed by `if f: X` / `if not f: X`
+    for _o, _f, lst in list(stmt_lists(tree)):
+        i = 0
+        while i + 1 < len(lst):
+            a, b = lst[i], lst[i + 1]
+            if isinstance(a, ast.Assign) and len(a.targets) == 1 and isinstance(a.targets[0], ast.Name) and isinstance(a.value, ast.Constant) \
+                    and isinstance(a.value.value, bool) and isinstance(b, ast.If):
+                t, pol = b.test, True
+                if isinstance(t, ast.UnaryOp) and isinstance(t.op, ast.Not):
+                    t, pol = t.operand, False
+                if isinstance(t, ast.Name) and t.id == a.targets[0].id:
+                    taken = b.body if a.value.value == pol else b.orelse
+                    lst[i + 1:i + 2] = list(taken)
+                    changed += 1
+                    continue
+            i += 1
+    return changed
+
+
 # ---------------------------------------------------------------------------------------------- pass: multi-item with -> nested
 class SplitWith(ast.NodeTransformer):
     """`with A as x, B as y: body`  is by definition  `with A as x: with B as y: body`."""
@@ -2040,6 +2081,7 @@ def canonicalise(trees, level, known_funcs=None):
                 n_inl += inline_closures(tree, counter)
                 n_st += scalarise_state_objects(tree)
         n_rec = destructure_record_results(tree)
+        mt.changed += sink_flag_tests(tree)
         n_alias = eliminate_aliases(tree) if (n_inl or n_st or n_obj or n_mod or n_rec) else 0
         if n_inl or n_obj or n_mod:
             forward_result_temporaries(tree)
